@@ -46,6 +46,13 @@ Theorem C04_release_always : forall maxc s t a,
 Proof. exact release_always. Qed.
 Print Assumptions C04_release_always.
 
+(* exchanging the protected handler (Wrap) while requests are in flight leaves the accounting alone; because C04_inv,
+   C04_bound and C04_reject_iff_full range over histories that contain Rewrap anywhere, the requests admitted before
+   the exchange still hold their slots after it and give them back when they end *)
+Theorem C04_rewrap_keeps_accounting : forall maxc s, step maxc s Rewrap = (s, []).
+Proof. reflexivity. Qed.
+Print Assumptions C04_rewrap_keeps_accounting.
+
 (* once every request has finished the limiter is as new and admits the full maximum again *)
 Theorem C04_drain : forall maxc ops s t n,
   gexec maxc (init, []) ops = Some (s, []) -> Z.of_nat n <= maxc ->
@@ -67,10 +74,10 @@ Print Assumptions C04_burst.
 
 (* non-vacuity: a well-formed history with overlapping requests of two sources, a rejection and a panic *)
 Example C04_history_exists :
-  let ops := [Arrive 7 1; Arrive 7 1; Arrive 7 1; Arrive 8 1; Finish 7 1 true; Arrive 7 1; Finish 8 1 false] in
+  let ops := [Arrive 7 1; Arrive 7 1; Rewrap; Arrive 7 1; Arrive 8 1; Finish 7 1 true; Arrive 7 1; Finish 8 1 false] in
   unit_amounts ops /\
   gexec 2 (init, []) ops = Some ({| cs := [(7, 2)]; total := 2 |}, [(7, 1); (7, 1)]) /\
-  run [2] [[0;7;1];[0;7;1];[0;7;1];[0;8;1];[1;7;1;1];[0;7;1];[1;8;1;0]]
-    = [[200;1];[200;2];[429;0];[200;1];[];[200;2];[]].
+  run [2] [[0;7;1];[0;7;1];[4];[0;7;1];[0;8;1];[1;7;1;3];[0;7;1];[1;8;1;0]]
+    = [[200;1];[200;2];[];[429;0];[200;1];[];[200;2];[]].
 Proof. split; [|split; vm_compute; reflexivity].
   intros t a H. cbn in H. repeat (destruct H as [H|H]; [inv H; try reflexivity|]); try discriminate; destruct H. Qed.
